@@ -784,6 +784,10 @@ type miniBroker struct {
 	holdClose    map[uuid.UUID]bool  // close responses of these streams are withheld
 	nextAlias    *uint32             // the alias of the next open response (the broker re-uses an alias)
 	closeSession map[uuid.UUID][]bool // CloseSession flag of every close request, per stream
+	// stray-frame scenario
+	dnAliases      []uint32 // DesiredStreamIDAlias of every downstream open request, in order
+	refuseNextDown bool     // the next downstream open is refused
+	dnClosed       int      // downstream close requests answered
 }
 
 func (m *miniBroker) releaseHeld() {
@@ -879,6 +883,15 @@ func newMiniBroker() *miniBroker {
 				s.Send(&message.UpstreamCloseResponse{RequestID: v.RequestID, ResultCode: message.ResultCodeSucceeded})
 			}
 		case *message.DownstreamOpenRequest:
+			m.mu.Lock()
+			m.dnAliases = append(m.dnAliases, v.DesiredStreamIDAlias)
+			refuse := m.refuseNextDown
+			m.refuseNextDown = false
+			m.mu.Unlock()
+			if refuse {
+				s.Send(&message.DownstreamOpenResponse{RequestID: v.RequestID, ResultCode: message.ResultCodeSessionAlreadyClosed, ResultString: "refused"})
+				return
+			}
 			if m.answerAll {
 				s.Send(&message.DownstreamOpenResponse{RequestID: v.RequestID, AssignedStreamID: uuid.New(), ResultCode: message.ResultCodeSucceeded, ServerTime: time.Unix(1700000000, 0)})
 			} // else silent: never answered
@@ -888,6 +901,9 @@ func newMiniBroker() *miniBroker {
 			}
 		case *message.DownstreamCloseRequest:
 			s.Send(&message.DownstreamCloseResponse{RequestID: v.RequestID, ResultCode: message.ResultCodeSucceeded})
+			m.mu.Lock()
+			m.dnClosed++
+			m.mu.Unlock()
 		}
 	})
 	m.b.OnDial = func(idx int, _ transport.DialConfig) error {
@@ -1419,8 +1435,220 @@ func runCloseOption() (direct string) {
 	return ""
 }
 
+// runStrayFrames: inbound frames addressed to a stream alias that has no entry in the wire connection's
+// tables - an alias never opened, the alias of a downstream that was just closed (the frame is sent right
+// after the close response), the alias of a refused open.  After EVERY such frame a table WRITER runs
+// (OpenDownstream of a new stream), then the neighbours are exercised: a chunk and a metadata for the
+// sibling downstream, an upstream write + ack, Close of the sibling, a chunk for the new stream - each
+// under a watchdog.  A hang names the frame and the step.
+func runStrayFrames(class string) (direct string) {
+	m := newMiniBroker()
+	m.answerAll = true
+	defer m.b.Release()
+	conn, err := iscp.Connect(m.b.Address, broker.TransportName, iscp.WithConnPingInterval(20*time.Millisecond), iscp.WithConnPingTimeout(5*time.Second))
+	if err != nil {
+		return "harness: connect failed: " + err.Error()
+	}
+	defer func() {
+		go func() {
+			ctx, cancel := context.WithTimeout(context.Background(), time.Second)
+			defer cancel()
+			conn.Close(ctx)
+		}()
+	}()
+	const step = 2 * time.Second
+	timed := func(what string, f func(context.Context) error) string {
+		done := make(chan error, 1)
+		go func() {
+			c2, cancel2 := context.WithTimeout(context.Background(), step)
+			defer cancel2()
+			done <- f(c2)
+		}()
+		select {
+		case err := <-done:
+			if err != nil {
+				return fmt.Sprintf("%s failed: %v", what, err)
+			}
+			return ""
+		case <-time.After(step + time.Second):
+			return fmt.Sprintf("%s did not return within %v", what, step+time.Second)
+		}
+	}
+	filters := []*message.DownstreamFilter{message.NewDownstreamFilterAllFor("src")}
+	var d1 *iscp.Downstream
+	var hook atomic.Int32
+	var up *iscp.Upstream
+	if d := timed("harness: setup", func(c context.Context) error {
+		var err error
+		if d1, err = conn.OpenDownstream(c, filters, iscp.WithDownstreamQoS(message.QoSReliable)); err != nil {
+			return err
+		}
+		up, err = conn.OpenUpstream(c, "u", iscp.WithUpstreamFlushPolicyNone(), iscp.WithUpstreamQoS(message.QoSReliable),
+			iscp.WithUpstreamReceiveAckHooker(iscp.ReceiveAckHookerFunc(func(uuid.UUID, iscp.UpstreamChunkResult) { hook.Add(1) })))
+		return err
+	}); d != "" {
+		return "harness: " + d
+	}
+	m.mu.Lock()
+	aliasD1 := m.dnAliases[0]
+	m.mu.Unlock()
+	// the alias without table entries
+	var stray uint32
+	switch class {
+	case "never-opened":
+		stray = 4000
+	case "just-closed":
+		var d0 *iscp.Downstream
+		if d := timed("harness: open+close of the stream to be closed", func(c context.Context) error {
+			var err error
+			if d0, err = conn.OpenDownstream(c, filters, iscp.WithDownstreamQoS(message.QoSReliable)); err != nil {
+				return err
+			}
+			return d0.Close(c)
+		}); d != "" {
+			return "harness: " + d
+		}
+		m.mu.Lock()
+		stray = m.dnAliases[len(m.dnAliases)-1]
+		m.mu.Unlock()
+	case "refused-open":
+		m.mu.Lock()
+		m.refuseNextDown = true
+		m.mu.Unlock()
+		if d := timed("harness: refused open", func(c context.Context) error {
+			if _, err := conn.OpenDownstream(c, filters, iscp.WithDownstreamQoS(message.QoSReliable)); err == nil {
+				return errors.New("the refused OpenDownstream returned a stream")
+			}
+			return nil
+		}); d != "" {
+			return "harness: " + d
+		}
+		m.mu.Lock()
+		stray = m.dnAliases[len(m.dnAliases)-1]
+		m.mu.Unlock()
+	}
+	sess := m.b.Current()
+	info := &message.UpstreamInfo{SessionID: "s", SourceNodeID: "src", StreamID: uuid.New()}
+	chunk := func(alias, seq uint32) *message.DownstreamChunk {
+		return &message.DownstreamChunk{StreamIDAlias: alias, UpstreamOrAlias: info, StreamChunk: &message.StreamChunk{SequenceNumber: seq,
+			DataPointGroups: []*message.DataPointGroup{{DataIDOrAlias: &message.DataID{Name: "d", Type: "t"}, DataPoints: []*message.DataPoint{{ElapsedTime: time.Duration(seq), Payload: []byte{byte(seq)}}}}}}}
+	}
+	id := uuid.New()
+	metas := []struct {
+		name string
+		m    message.Metadata
+	}{
+		{"BaseTime", &message.BaseTime{SessionID: "s", Name: "late", BaseTime: time.Unix(1700000000, 0).UTC()}},
+		{"UpstreamOpen", &message.UpstreamOpen{StreamID: id, SessionID: "s", QoS: message.QoSReliable}},
+		{"UpstreamAbnormalClose", &message.UpstreamAbnormalClose{StreamID: id, SessionID: "s"}},
+		{"UpstreamResume", &message.UpstreamResume{StreamID: id, SessionID: "s", QoS: message.QoSReliable}},
+		{"UpstreamNormalClose", &message.UpstreamNormalClose{StreamID: id, SessionID: "s", TotalDataPoints: 1, FinalSequenceNumber: 1}},
+		{"DownstreamOpen", &message.DownstreamOpen{StreamID: id, DownstreamFilters: filters, QoS: message.QoSReliable}},
+		{"DownstreamAbnormalClose", &message.DownstreamAbnormalClose{StreamID: id}},
+		{"DownstreamResume", &message.DownstreamResume{StreamID: id, DownstreamFilters: filters, QoS: message.QoSReliable}},
+		{"DownstreamNormalClose", &message.DownstreamNormalClose{StreamID: id}},
+	}
+	type frame struct {
+		name string
+		msg  message.Message
+	}
+	var frames []frame
+	for i, mt := range metas {
+		frames = append(frames, frame{"DownstreamMetadata(" + mt.name + ")", &message.DownstreamMetadata{RequestID: message.RequestID(1001 + 2*i), StreamIDAlias: stray, SourceNodeID: "src", Metadata: mt.m,
+			ExtensionFields: &message.DownstreamMetadataExtensionFields{}}})
+	}
+	frames = append(frames,
+		frame{"DownstreamMetadata(BaseTime) from an unsubscribed node to the SIBLING's alias", &message.DownstreamMetadata{RequestID: 1099, StreamIDAlias: aliasD1, SourceNodeID: "other-node",
+			Metadata: metas[0].m, ExtensionFields: &message.DownstreamMetadataExtensionFields{}}},
+		frame{"DownstreamChunk", chunk(stray, 1)},
+		frame{"DownstreamChunkAckComplete", &message.DownstreamChunkAckComplete{StreamIDAlias: stray, AckID: 1, ResultCode: message.ResultCodeSucceeded}},
+		frame{"UpstreamChunkAck", &message.UpstreamChunkAck{StreamIDAlias: 4000 + stray, Results: []*message.UpstreamChunkResult{{SequenceNumber: 1, ResultCode: message.ResultCodeSucceeded}}}},
+	)
+	fail := func(after, d string) string {
+		return fmt.Sprintf("%s: after the broker sent a %s addressed to stream alias %d, which has no entry in the connection's tables (%s), %s: a frame for one alias stalled the rest of the connection",
+			class, after, stray, class, d)
+	}
+	seq := uint32(0)
+	upSeq := int32(0)
+	var opened []*iscp.Downstream
+	for _, fr := range frames {
+		if err := sess.Send(fr.msg); err != nil {
+			return "harness: broker send failed: " + err.Error()
+		}
+		time.Sleep(2 * time.Millisecond)
+		// a WRITER of the downstream table
+		var dn *iscp.Downstream
+		if d := timed("OpenDownstream of a new stream (a writer of the downstream table)", func(c context.Context) error {
+			var err error
+			dn, err = conn.OpenDownstream(c, filters, iscp.WithDownstreamQoS(message.QoSReliable))
+			return err
+		}); d != "" {
+			return fail(fr.name, d)
+		}
+		opened = append(opened, dn)
+		m.mu.Lock()
+		aliasNew := m.dnAliases[len(m.dnAliases)-1]
+		m.mu.Unlock()
+		// the neighbours keep working
+		seq++
+		sess.Send(chunk(aliasD1, seq))
+		if d := timed("ReadDataPoints of the sibling downstream (a chunk was sent to it)", func(c context.Context) error {
+			ck, err := d1.ReadDataPoints(c)
+			if err == nil && ck.SequenceNumber != seq {
+				return fmt.Errorf("got sequence number %d, expected %d", ck.SequenceNumber, seq)
+			}
+			return err
+		}); d != "" {
+			return fail(fr.name, d)
+		}
+		sess.Send(&message.DownstreamMetadata{RequestID: message.RequestID(2001 + 2*seq), StreamIDAlias: aliasD1, SourceNodeID: "src", Metadata: metas[0].m, ExtensionFields: &message.DownstreamMetadataExtensionFields{}})
+		if d := timed("ReadMetadata of the sibling downstream (a metadata was sent to it)", func(c context.Context) error {
+			_, err := d1.ReadMetadata(c)
+			return err
+		}); d != "" {
+			return fail(fr.name, d)
+		}
+		sess.Send(chunk(aliasNew, 1))
+		if d := timed("ReadDataPoints of the newly opened downstream", func(c context.Context) error {
+			_, err := dn.ReadDataPoints(c)
+			return err
+		}); d != "" {
+			return fail(fr.name, d)
+		}
+		upSeq++
+		if d := timed("upstream write + flush + ack", func(c context.Context) error {
+			if err := up.WriteDataPoints(c, &message.DataID{Name: "n1", Type: "t"}, &message.DataPoint{ElapsedTime: time.Duration(upSeq), Payload: []byte{1}}); err != nil {
+				return err
+			}
+			if err := up.Flush(c); err != nil {
+				return err
+			}
+			if !broker.WaitFor(step, func() bool { return hook.Load() >= upSeq }) {
+				return fmt.Errorf("the ack of chunk %d did not reach the upstream's hook", upSeq)
+			}
+			return nil
+		}); d != "" {
+			return fail(fr.name, d)
+		}
+		// Close of a downstream: another writer of the table
+		if d := timed("Close of a neighbour downstream (a writer of the downstream table)", func(c context.Context) error { return dn.Close(c) }); d != "" {
+			return fail(fr.name, d)
+		}
+	}
+	if d := timed("Close of the sibling downstream", func(c context.Context) error { return d1.Close(c) }); d != "" {
+		return fail("(all frames)", d)
+	}
+	if d := timed("Close of the upstream", func(c context.Context) error { return up.Close(c) }); d != "" {
+		return fail("(all frames)", d)
+	}
+	_ = opened
+	return ""
+}
+
 func runScen(name, arg string, ms int) string {
 	switch name {
+	case "stray-frames":
+		return runStrayFrames(arg)
 	case "abandoned-close":
 		return runAbandonedClose()
 	case "close-option":
@@ -1532,7 +1760,7 @@ func main() {
 				Ms       int    `json:"ms"`
 			} `json:"input"`
 		}
-		if json.Unmarshal(b, &sc) == nil && (sc.Input.Scenario == "shared-timer" || sc.Input.Scenario == "deadline-neighbour" || sc.Input.Scenario == "slow-resume" || sc.Input.Scenario == "abandoned-close" || sc.Input.Scenario == "close-option") {
+		if json.Unmarshal(b, &sc) == nil && (sc.Input.Scenario == "shared-timer" || sc.Input.Scenario == "deadline-neighbour" || sc.Input.Scenario == "slow-resume" || sc.Input.Scenario == "stray-frames" || sc.Input.Scenario == "abandoned-close" || sc.Input.Scenario == "close-option") {
 			d := runScen(sc.Input.Scenario, sc.Input.Arg, sc.Input.Ms)
 			w.Add(coqfmt.Case{Term: "mkIsoCase []", Input: sc.Input, Kind: sc.Input.Scenario, Direct: d, Nontrivial: true})
 			if err := w.Flush(*seed, *tier, "replay of a timer/deadline scenario", false, nil); err != nil {
@@ -1687,6 +1915,7 @@ func main() {
 		}
 		scens := []scen{{"shared-timer", "default-close", 0}, {"shared-timer", "default-three-close", 0}, {"shared-timer", "sameobj-close", 0},
 			{"shared-timer", "default-resume-close", 0},
+			{"stray-frames", "never-opened", 0}, {"stray-frames", "just-closed", 0}, {"stray-frames", "refused-open", 0},
 			{"abandoned-close", "", 0}, {"close-option", "", 0},
 			{"slow-resume", "downstream-withheld", 0}, {"slow-resume", "upstream-withheld", 0}, {"slow-resume", "upstream-conflict", 0},
 			{"deadline-neighbour", "open-upstream", 150}, {"deadline-neighbour", "open-downstream", 120}, {"deadline-neighbour", "send-metadata", 200}}
@@ -1718,7 +1947,7 @@ func main() {
 				Kind: "dead-downstream-flood", Direct: d, Nontrivial: true, Seed: uint64(flood)})
 		}
 	}
-	rule := "an abandoned Close of A (close response withheld, 100 ms context) + a late ack for A + the broker re-using A's stream alias for the next upstream B: B's ack hook stays silent and its unacknowledged chunk stays stored; three upstreams, one closed with WithUpstreamCloseEnableCloseSession(): only its close request carries CloseSession; after an outage the broker withholds one stream's resume answer (a downstream's, an upstream's, or answers an upstream's with conflict three times): meanwhile a new OpenUpstream, a new OpenDownstream and SendBaseTime must succeed within 1.5 s and the sibling reliable upstream must resume and retransmit its unacknowledged chunk; upstreams sharing the library's default flush-policy object (no flush-policy option; real 100 ms ticker) or one policy object passed to all: after a neighbour closes (also after a common outage) a small write to the survivor must still be flushed by its timer; a request (upstream open / downstream open / metadata) with a 120-200 ms deadline left unanswered on a healthy connection must cause no redial, no disconnect/reconnect event, no resume request or event, no retransmission and no cleared store for the neighbours; a downstream whose open was refused (its subscriptions stay registered, nobody reads) is flooded with 40 / 1100 chunks, then a live downstream must still get its chunk and a live upstream its ack; the broker gives the first stream STREAM ALIAS 0 (also after a resume); lifecycle operations of a neighbour happen on the same wire connection: an open refused with a zero alias in the response, a resume refused with a zero alias, an application Close while the neighbour's resume request is still unanswered (its close request travels on the new connection where it has no alias entry) - afterwards the alias-0 stream must still send chunks and receive acks. 2-3 upstreams (the first reliable, the others reliable or unreliable) on one connection: interleaved write+flush, per-stream acks, optional close of one stream, optional outage (loud cut, writes of any stream before it is noticed, all streams resume: unreliable ones answered first), more traffic, closes in random order; each stream's observables are compared with its solo run through the same history. non-trivial = every stream has a solo run to compare with; distinct = distinct Coq case terms"
+	rule := "stray inbound frames (DownstreamMetadata of all 9 kinds, a metadata from an unsubscribed node, DownstreamChunk, DownstreamChunkAckComplete, UpstreamChunkAck) addressed to a stream alias without table entries (never opened / just closed / refused open), each followed by a table writer (OpenDownstream), a chunk and a metadata for the sibling downstream, a chunk for the new stream, an upstream write+ack and a downstream Close, all under a watchdog; an abandoned Close of A (close response withheld, 100 ms context) + a late ack for A + the broker re-using A's stream alias for the next upstream B: B's ack hook stays silent and its unacknowledged chunk stays stored; three upstreams, one closed with WithUpstreamCloseEnableCloseSession(): only its close request carries CloseSession; after an outage the broker withholds one stream's resume answer (a downstream's, an upstream's, or answers an upstream's with conflict three times): meanwhile a new OpenUpstream, a new OpenDownstream and SendBaseTime must succeed within 1.5 s and the sibling reliable upstream must resume and retransmit its unacknowledged chunk; upstreams sharing the library's default flush-policy object (no flush-policy option; real 100 ms ticker) or one policy object passed to all: after a neighbour closes (also after a common outage) a small write to the survivor must still be flushed by its timer; a request (upstream open / downstream open / metadata) with a 120-200 ms deadline left unanswered on a healthy connection must cause no redial, no disconnect/reconnect event, no resume request or event, no retransmission and no cleared store for the neighbours; a downstream whose open was refused (its subscriptions stay registered, nobody reads) is flooded with 40 / 1100 chunks, then a live downstream must still get its chunk and a live upstream its ack; the broker gives the first stream STREAM ALIAS 0 (also after a resume); lifecycle operations of a neighbour happen on the same wire connection: an open refused with a zero alias in the response, a resume refused with a zero alias, an application Close while the neighbour's resume request is still unanswered (its close request travels on the new connection where it has no alias entry) - afterwards the alias-0 stream must still send chunks and receive acks. 2-3 upstreams (the first reliable, the others reliable or unreliable) on one connection: interleaved write+flush, per-stream acks, optional close of one stream, optional outage (loud cut, writes of any stream before it is noticed, all streams resume: unreliable ones answered first), more traffic, closes in random order; each stream's observables are compared with its solo run through the same history. non-trivial = every stream has a solo run to compare with; distinct = distinct Coq case terms"
 	if err := w.Flush(*seed, *tier, rule, false, nil); err != nil {
 		fmt.Fprintln(os.Stderr, err)
 		os.Exit(2)
